@@ -726,6 +726,11 @@ func (h *inst) check(r *vs.Result) (string, []string) {
 				n++
 			}
 		}
+		if h.cfg.Service && !h.foundOpenSettled {
+			// the answer never reached a handler (it gave up while the query was in flight; order.go drops the
+			// result): a handler started later by an announcement knows nothing of the old bid - not demanded
+			n = 0
+		}
 		if strings.HasPrefix(q.result, "found-") && n > 0 {
 			bad("second-bid:existing-bid-"+strings.TrimPrefix(q.result, "found-"), "MsgCreateBid broadcast although the existing-bid query had returned this provider's bid on the order (state %s)", strings.TrimPrefix(q.result, "found-"))
 		}
